@@ -141,10 +141,10 @@ def _check_main(run, P):
              "what statements touch (shared with C08.reads / C08.writes)", minimum=20)
     from . import c08 as _c08, stmtmodel as _sm
     _c08.reads_writes(run, P, _sm.statement_classes(P), "C07.readsets", "C07.readsets")
-    _c08._written_whole(run, P, _sm.statement_classes(P), "C07.readsets")
+    run.do(_c08._written_whole, run, P, _sm.statement_classes(P), "C07.readsets")
 
     m = P.module(MOD)
-    _seed(run, P)
+    run.do(_seed, run, P)
     funcs = []
     for cname in EXPR_CLASSES + ["SelfDependencyEliminator"]:
         if cname not in m.classes:
@@ -161,19 +161,19 @@ def _check_main(run, P):
              "the else operand under base-and-not-flag; each branch assignment "
              "carries the guard of its branch", minimum=5)
     polarity(run, P, "C07.polarity")
-    _wrap(run, P)
-    _consumers(run, P)
-    _arity(run, P)
-    _selfdep(run, P)
+    run.do(_wrap, run, P)
+    run.do(_consumers, run, P)
+    run.do(_arity, run, P)
+    run.do(_selfdep, run, P)
     from . import c08, stmtmodel
     from .c01 import _alias
     _alias(run, "C08.ident", "C07.mapexpr",
            lambda: c08._ident(run, P, stmtmodel.statement_classes(P)))
     coverage(run, P, "C07.mapexpr", include_written=False)
-    _rhs_only(run, P)
-    _flat_and(run, P)
-    _kwpair(run, P)
-    _append_only(run, P)
+    run.do(_rhs_only, run, P)
+    run.do(_flat_and, run, P)
+    run.do(_kwpair, run, P)
+    run.do(_append_only, run, P)
 
 
 def _seed(run, P):
@@ -420,7 +420,7 @@ def _per_ctor(run, P, f: Func):
                        why="result of a rewriting handler must be the rebuilt "
                            "expression or a variable introduced here")
 
-    _rec_flow(run, P, f, ctors)
+    run.do(_rec_flow, run, P, f, ctors)
 
 
 def _rec_flow(run, P, f: Func, ctors):
